@@ -9,6 +9,29 @@ from . import core, lpcases, solve
 SPEC_DIR = solve.SPEC_DIR
 
 
+def lp_text(c):
+    """The linear model as source text (the user's model: named rows and declared domains)."""
+    from . import render
+    num = lambda n: {"op": "num", "n": n, "d": c["den"]}
+    def lin(coefs):
+        t = None
+        for a, v in zip(coefs, c["vars"]):
+            if a == 0:
+                continue
+            term = {"op": "mul", "a": num(a), "b": {"op": "var", "name": v["name"]}}
+            t = term if t is None else {"op": "add", "a": t, "b": term}
+        return t or num(0)
+    obj = lin(c["obj"])
+    if c["off"]:
+        obj = {"op": "add", "a": obj, "b": num(c["off"])}
+    m = {"sense": c["sense"], "obj": obj,
+         "cons": [{"lhs": lin(r["a"]), "cmp": r["cmp"], "rhs": num(r["b"]), "assert": False, "name": r["name"]} for r in c["rows"]],
+         "dom": [{"name": v["name"], "kind": v["kind"], "lo": v["lo"], "hi": v["hi"]} for v in c["vars"]]}
+    if not m["cons"]:
+        return None
+    return render.model_text(m)
+
+
 def check(tier, seed, replay=None):
     prop = "C20"
     o = core.Outcome(prop, tier, seed)
@@ -39,7 +62,12 @@ def check(tier, seed, replay=None):
         for i, c in enumerate(cases):
             if i % 3 == seed % 3 and len(c["rows"]) >= 2:
                 c["rows"][1]["name"] = ""
-    events = core.rv_parallel("solve", cases, prop, extra=["--entries", "clarabel"], procs=12)
+    for c in cases:
+        t = lp_text(c)
+        if t:
+            c["text"] = t
+    events = core.rv_parallel("solve", cases, prop, extra=["--entries", "clarabel,text_clarabel"], procs=12)
+    events = [e for e in events if e["entry"] == "clarabel" or "text" in e]
     cost = [1 + 3 * len(e["rows"]) for e in events]
     v = core.validate(SPEC_DIR, "SolveTrace.tla", "SolveTrace.cfg", events, prop, prop, chunks=12, cost=cost, heads=("DUAL",))
     byid = {e["id"]: e for e in events}
@@ -48,7 +76,9 @@ def check(tier, seed, replay=None):
             continue
         ev = byid.get(r[2], {})
         case = {k: ev.get(k) for k in ("id", "entry", "sense", "obj", "off", "den", "vars", "rows")}
-        o.violation(f"{r[3]}:{json.dumps({k: case[k] for k in ('sense','obj','off','den','vars','rows')}, sort_keys=True)}", case,
+        sig = r[3] if r[3].startswith("KNOWN-") else f"entry={ev.get('entry')} {r[3]}:{json.dumps({k: case[k] for k in ('sense','obj','off','den','vars','rows')}, sort_keys=True)}"
+        case["text"] = ev.get("text")
+        o.violation(sig, case,
                     f"{r[3]} model={json.dumps({k: case[k] for k in ('sense','obj','vars','rows')})[:400]} duals={json.dumps(ev.get('sol', {}).get('duals'))[:200]}")
     duals = v.other.get("DUAL", [])
     judged = sum(d[2] for d in duals)
@@ -65,12 +95,13 @@ def check(tier, seed, replay=None):
         "samples": samples or [{"note": "none"}],
         "evaluations": len(events),
         "distinct_nontrivial": nonzero,
-        "rule": "one event = Clarabel on one named-row LpGen model; a row is judged when the exact optimum is differentiable in its right-hand side"
+        "rule": "one event = Clarabel on one named-row LpGen model, given as a LinearModel (entry clarabel) and as source text through the front end and the linearizer (entry text_clarabel); a row is judged when the exact optimum is differentiable in its right-hand side"
                 " (equal secant slopes over +-1/8, three exact re-solves); non-trivial = judged row with non-zero sensitivity",
         "exhaustive": False,
         "rows_judged": judged,
         "rows_with_nonzero_sensitivity": nonzero,
         "solutions": sum(1 for e in events if e["out"] == "solution"),
+        "solutions_by_entry": {en: sum(1 for e in events if e["out"] == "solution" and e["entry"] == en) for en in ("clarabel", "text_clarabel")},
         "families": meta,
         "unverifiable_overflow": v.overflow_ids[:10],
         "unverifiable_overflow_count": len(v.overflow_ids),
